@@ -165,6 +165,9 @@ def finish(prop, ctxs, tier, t0, explanation, level_rule, seed=0, extra=None):
         else:
             viol.append(i)
     os.makedirs(os.path.join(EVID, 'violations'), exist_ok=True)
+    for fn in os.listdir(os.path.join(EVID, 'violations')):
+        if fn.startswith(prop + '-'):
+            os.unlink(os.path.join(EVID, 'violations', fn))
     lines = []
     for i, k in kf:
         lines.append('KNOWN-FINDING: property=%s %s [%s] at %s' % (prop, k['what'], i.key, i.site))
